@@ -86,6 +86,8 @@ type Ctx struct {
 	assumeFree []map[string]bool
 	axiomFree  map[int]map[string]bool
 	freeMemo   map[int][]string
+	hardMemo   map[int]bool
+	arithAlt   map[string]string // macro line -> uninterpreted declaration (abstract query)
 	NoSlice    bool
 	mu         sync.Mutex
 	defined    map[string]string
@@ -192,6 +194,26 @@ func (c *Ctx) UF(name string, args []Sort, res Sort) string {
 	return name
 }
 
+// Arith builds a nonlinear / division bit-vector operation through a named
+// function `op_W`. In the ordinary query the function is a macro for the SMT
+// operator; in the abstract query (stage 0) it is left uninterpreted, which
+// keeps congruence (equal arguments give equal results) without bit-blasting a
+// multiplier. Uninterpreted is more general than the operator, so `unsat` of the
+// abstract query carries over to the real one.
+func (c *Ctx) Arith(op string, s Sort, a, b Term) Term {
+	name := fmt.Sprintf("%s_%d", op, s.Width())
+	if c.arithAlt == nil {
+		c.arithAlt = map[string]string{}
+	}
+	if _, ok := c.arithAlt[name]; !ok {
+		def := fmt.Sprintf("(define-fun %s ((x!a %s) (x!b %s)) %s (%s x!a x!b))", name, s, s, s, op)
+		c.arithAlt[def] = fmt.Sprintf("(declare-fun %s (%s %s) %s)", name, s, s, s)
+		c.arithAlt[name] = def
+		c.lines = append(c.lines, def)
+	}
+	return Term{fmt.Sprintf("(%s %s %s)", name, a.S, b.S), s}
+}
+
 func (c *Ctx) App(name string, res Sort, args ...Term) Term {
 	ss := make([]Sort, len(args))
 	as := make([]string, len(args))
@@ -236,6 +258,17 @@ func (c *Ctx) Assume(t Term) {
 // Script renders a complete query: prelude, the first nAssume assumptions, and
 // the negated goal.
 func (c *Ctx) Script(nAssume int, negGoal Term, wantModel bool, extra ...Term) string {
+	return c.script(nAssume, negGoal, wantModel, false, extra...)
+}
+
+// ScriptThin is the abstract query: multiplication, division and remainder are
+// uninterpreted functions. An `unsat` answer carries over to the full query;
+// any other answer means nothing and the full query must be asked.
+func (c *Ctx) ScriptThin(nAssume int, negGoal Term) string {
+	return c.script(nAssume, negGoal, false, true)
+}
+
+func (c *Ctx) script(nAssume int, negGoal Term, wantModel bool, thin bool, extra ...Term) string {
 	var b strings.Builder
 	if wantModel {
 		b.WriteString("(set-option :produce-models true)\n")
@@ -250,9 +283,14 @@ func (c *Ctx) Script(nAssume int, negGoal Term, wantModel bool, extra ...Term) s
 			fmt.Fprintf(&b, "(assert %s)\n", c.Assumes[i].S)
 		}
 	} else {
-		keepLine, keepAssume := c.sliceFor(nAssume, append([]Term{negGoal}, extra...)...)
+		keepLine, keepAssume := c.sliceFor(nAssume, thin, append([]Term{negGoal}, extra...)...)
 		for i, l := range c.lines {
 			if keepLine[i] {
+				if thin {
+					if alt, ok := c.arithAlt[l]; ok {
+						l = alt
+					}
+				}
 				b.WriteString(l)
 				b.WriteByte('\n')
 			}
